@@ -35,7 +35,7 @@ NOT_DECIDED = ["truthfulness of ZipInfo sizes (forged central directories) — b
                "floating point division semantics at ratio boundaries (the comparison operators and operands are decided, not the arithmetic)"]
 TRUSTED = ["Python grammar (ast 3.12)", "CFG construction in sa/engine/cfg.py", "zipfile.ZipFile(...) reads only the central directory; ZipFile.read/open decompress",
            "openpyxl.load_workbook is the only third-party call in the repository that opens a ZIP container by itself"]
-FLOORS = {"C11-PRED": 14, "C11-OWN": 12, "C11-ORDER": 5, "C11-POS": 2}
+FLOORS = {"C11-DIR": 2, "C11-PROP": 3, "C11-PRED": 14, "C11-OWN": 12, "C11-ORDER": 5, "C11-POS": 2}
 
 CONTAINER_EXTRACTORS = ["read_docx", "read_pptx", "read_xlsx", "read_odt", "read_ods", "read_odp", "read_odg", "read_odf", "read_epub"]
 THIRD_PARTY_ZIP_OPENERS = {"openpyxl.load_workbook"}
@@ -502,4 +502,86 @@ def rule_pos(ctx: Ctx) -> RuleReport:
     return rep
 
 
-RULES = [rule_pred, rule_own, rule_order, rule_pos]
+def rule_dir(ctx: Ctx) -> RuleReport:
+    """Directory entries are exempt from every clause: the test that grants the exemption must be one a file entry cannot pass."""
+    rep = RuleReport("C11-DIR", "an entry is treated as a directory only by name (ZipInfo.is_dir / trailing '/'), never by attributes a file entry can carry")
+    f = ctx.p.maybe_func(ZB, "_is_directory")
+    if f is None:
+        raise AnalysisError("C11-DIR: _is_directory vanished")
+    rep.unit(f.key)
+    prm = f.node.args.args[0].arg
+    # locals bound to the is_dir method:  is_dir = getattr(info, "is_dir", None)
+    isdir_names = {n.targets[0].id for n in walk_own(f.node) if isinstance(n, ast.Assign) and len(n.targets) == 1 and isinstance(n.targets[0], ast.Name)
+                   and isinstance(n.value, ast.Call) and dotted(n.value.func) == "getattr" and len(n.value.args) >= 2 and isinstance(n.value.args[1], ast.Constant) and n.value.args[1].value == "is_dir"}
+
+    def by_name(e) -> bool:
+        if isinstance(e, ast.Call) and isinstance(e.func, ast.Name) and e.func.id == "bool" and len(e.args) == 1:
+            return by_name(e.args[0])
+        if isinstance(e, ast.Call) and isinstance(e.func, ast.Name) and e.func.id in isdir_names and not e.args:
+            return True
+        if isinstance(e, ast.Call) and isinstance(e.func, ast.Attribute) and e.func.attr == "is_dir" and norm(e.func.value) == prm:
+            return True
+        if isinstance(e, ast.Call) and isinstance(e.func, ast.Attribute) and e.func.attr == "endswith" and norm(e.func.value) == f"{prm}.filename" and e.args and isinstance(e.args[0], ast.Constant) and e.args[0].value in ("/", ("/", "\\")):
+            return True
+        if isinstance(e, ast.BoolOp):
+            return all(by_name(v) for v in e.values)
+        return False
+
+    rets = [r for r in walk_own(f.node) if isinstance(r, ast.Return) and r.value is not None]
+    if not rets:
+        raise AnalysisError("C11-DIR: _is_directory returns nothing")
+    for r in rets:
+        if isinstance(r.value, ast.Constant) and r.value.value is False:
+            rep.ok({"return": "False"})
+            continue
+        if isinstance(r.value, ast.Constant) and r.value.value is True:
+            conds, opaque, _ = path_conditions(f.node, r)
+            rep.fail(Finding("C11-DIR", ZB, f.qual, "return True if " + " and ".join([str(c) for c in conds] + opaque),
+                             "an entry is declared a directory (and skipped by every size / ratio clause) on a condition that is not its name: a regular over-limit entry carrying that attribute passes the guard", line=r.lineno))
+            continue
+        if by_name(r.value):
+            rep.ok({"return": norm(r.value)})
+        else:
+            rep.fail(Finding("C11-DIR", ZB, f.qual, "return " + short(r.value, 70), "the directory test depends on something other than ZipInfo.is_dir() / a trailing '/' in the name", line=r.lineno))
+    return rep
+
+
+def rule_prop(ctx: Ctx) -> RuleReport:
+    """The zip-bomb error must reach the caller as such: no handler around the guard may translate it."""
+    rep = RuleReport("C11-PROP", "no handler around open_zipfile / validate_zip_bytesio / validate_zipfile replaces the zip-bomb error by another one")
+    guards = {"open_zipfile", "validate_zip_bytesio", "validate_zipfile"}
+    n_sites = 0
+    for fi in ctx.p.all_functions():
+        if "/tests/" in fi.module.rel or fi.module.rel == ZB:
+            continue
+        for c in calls_in(fi):
+            t = resolve_call(ctx.p, fi, c)
+            if not any(g.name in guards and g.module.rel == ZB for g in t.funcs):
+                continue
+            n_sites += 1
+            rep.unit(fi.key)
+            tries = [tr for tr in walk_own(fi.node) if isinstance(tr, ast.Try) and any(x is c for st in tr.body for x in ast.walk(st))]
+            bad = None
+            for tr in tries:
+                for h in tr.handlers:
+                    names = [(dotted(e) or "?").split(".")[-1] for e in (h.type.elts if isinstance(h.type, ast.Tuple) else [h.type])] if h.type is not None else ["<bare>"]
+                    passes_on = len(h.body) >= 1 and isinstance(h.body[-1], ast.Raise) and h.body[-1].exc is None
+                    if any(n in ("ExtractionError", "ExtractionZipBombError") for n in names) and passes_on:
+                        break  # the family is re-raised unchanged before any broader handler
+                    if any(n in ("Exception", "BaseException", "<bare>", "ExtractionError", "ExtractionZipBombError") for n in names) and not passes_on:
+                        bad = (h, names)
+                        break
+                if bad:
+                    break
+            if bad is None:
+                rep.ok({"site": f"{fi.qual}: {short(c, 40)}", "bomb_error": "propagates unchanged"})
+            else:
+                h, names = bad
+                rep.fail(Finding("C11-PROP", fi.module.rel, fi.qual, f"except {', '.join(names)} around {short(c, 40)}",
+                                 "the handler around the bomb guard also catches ExtractionZipBombError and raises / returns something else: an archive that exceeds the limits is no longer rejected with the zip-bomb error", line=h.lineno))
+    if n_sites < 3:
+        raise AnalysisError(f"C11-PROP: only {n_sites} guard call sites found (3 confirmed)")
+    return rep
+
+
+RULES = [rule_dir, rule_prop, rule_pred, rule_own, rule_order, rule_pos]
